@@ -148,8 +148,20 @@ def check(run):
             for t, pol in ctx.conds:
                 txt = norm(t).replace(' ', '')
                 if 'acq_mat(stabilizers.gs)' in txt and isinstance(st.exc, ast.Call) and norm(st.exc.func) == 'ValueError':
-                    # the test must be true exactly when some pair anticommutes
-                    ok = txt in ('not(acq_mat(stabilizers.gs)==0).all()', '(acq_mat(stabilizers.gs)!=0).any()', '(acq_mat(stabilizers.gs)==1).any()') and pol
+                    # the test must be true exactly when some pair anticommutes: the anticommutation matrix is replaced by a
+                    # name and the test is evaluated on "all zero" / "not all zero" (any spelling of that test is accepted)
+                    import copy as _copy
+                    from ..names import allzero_polarity
+
+                    class _R(ast.NodeTransformer):
+                        def visit_Call(self, n):
+                            if norm(n).replace(' ', '') == 'acq_mat(stabilizers.gs)':
+                                return ast.copy_location(ast.Name(id='__M__', ctx=ast.Load()), n)
+                            self.generic_visit(n)
+                            return n
+                    pol_z = allzero_polarity(_R().visit(_copy.deepcopy(t)), '__M__')
+                    ok = ok or (pol_z is not None and (pol_z is False) == pol) or \
+                        (txt == '(acq_mat(stabilizers.gs)==1).any()' and pol)
         run.check(ok, 'R11.commute', ss, 'raise ValueError', 'anticommuting stabilizers must be rejected with ValueError')
         proj = [(st, ctx) for st, ctx in walk(ss.node) if isinstance(st, ast.Assign) and isinstance(st.value, ast.Call) and norm(st.value.func) == 'stabilizer_project']
         if raises and proj:
@@ -161,7 +173,7 @@ def check(run):
         base = [itext(ss, st.value) for st, _ in walk(ss.node) if isinstance(st, ast.Assign) and norm(st.targets[0]) == SV]
         run.check(len(base) == 1 and base[0].startswith('maximally_mixed_state(stabilizers.N'), 'R2.rank', ss, 'state = maximally_mixed_state(N)',
                   'the projection starts from the maximally mixed state (found %s)' % base)
-        flipped_g = any('flipud(stabilizers.gs)' in itext(ss, st.value) for st, _ in proj)
+        flipped_g = any('flipud(stabilizers.gs)' in itext(ss, st.value) or 'stabilizers.gs[::-1]' in itext(ss, st.value) for st, _ in proj)
         signs = [st for st, _ in walk(ss.node) if isinstance(st, ast.Assign) and isinstance(st.targets[0], ast.Subscript)
                  and norm(st.targets[0].value) == SV + '.ps']
         if len(signs) != 1:
@@ -203,6 +215,9 @@ def check(run):
     forms = set()
     for st, ctx in walk(rb.node):
         if isinstance(st, ast.Assign) and isinstance(st.targets[0], ast.Subscript) and isinstance(st.targets[0].slice, ast.Tuple) and ctx.loops:
+            if not (isinstance(ctx.loops[-1], ast.For) and isinstance(ctx.loops[-1].target, ast.Name)):
+                run.undecided('R13.bits', rb, st, 'the bit layout is not written as an index loop over the qubits')
+                continue
             i = ctx.loops[-1].target.id
             r, c = st.targets[0].slice.elts
             fr = [affine_in(r, i, {'N': n}) for n in (3, 5)]
